@@ -230,11 +230,12 @@ func c01DisabledSameStageProgram(depth int, flags []bool, source int) string {
 	sb.WriteString("pipeline TOP(\n    in  string s,\n    out string y,\n    out string z,\n    out int    n,\n    out int    r,\n)\n{\n")
 	fmt.Fprintf(&sb, "    call ECHOALLF as FLAGS(\n        f1_ = %v,\n        f2_ = %v,\n        f3_ = %v,\n    )\n\n", flags[0], flags[1], flags[2])
 	src := `"hello"`
+	// the outside stage is always there (it uses the pipeline input `s`)
+	sb.WriteString("    call WORKS as OUTSIDE(\n        x = self.s,\n    )\n\n")
 	switch source {
 	case 1:
 		src = "self.s"
 	case 2:
-		sb.WriteString("    call WORKS as OUTSIDE(\n        x = self.s,\n    )\n\n")
 		src = "OUTSIDE.y"
 	}
 	fmt.Fprintf(&sb, "    call P%d(\n        x = %s,\n", depth, src)
